@@ -469,15 +469,15 @@ def capture_write(ctx):
     if b is None:
         return [missing(N)]
     d = {}
-    X = "try(next(a1.basis)) as Continue.0"
+    X = "next(a1.basis) as Some.0"
     for p in checked(d, "capture-next", b, ctx.walk(b).paths):
         gs, r = summarize(p)
         gs = [_sh(strip_ver(g)) for g in gs]
         r = strip_ver(r)
         loc = b.loc(p.blocks[-1])
         cs = _calls(p)
-        if any(g.endswith("=Break") for g in gs):
-            _rec(d, "exhaustion", r.startswith("propagate(") and not [c for c in cs if c[0].startswith("set_")], "exhaustion of the child must be exhaustion, with no state written", loc)
+        if any(g == "variant(next(a1.basis))=None" for g in gs):
+            _rec(d, "exhaustion", r == "Option::None" and not [c for c in cs if c[0].startswith("set_")], "exhaustion of the child must be exhaustion, with no state written", loc)
             continue
         _rec(d, "yield", r == "Option::Some{0: %s}" % X, "the child's result must be yielded unchanged; found %s" % r[:80], loc)
         _rec(d, "start", any(c[0] == "set_paren_start" and c[1] == ["a1.matcher", "a1.group_nr", "a1.position"] for c in cs), "group start must be set to the position the group was entered at", loc)
